@@ -130,11 +130,9 @@ class CleanExplore(InputProp):
             fams.append(docgrammar.space(tier, name="grammar"))
         except ImportError:
             pass
-        if tier == "quick":
-            fams.append(Seqs(clean_names, 2, minlen=2, name="clean2"))
-        else:
-            fams.append(Seqs(clean_names, 2, minlen=2, name="clean2"))
-            fams.append(Product(clean_names, [c[0] for c in W.CTX], name="clean-ctx"))
+        fams.append(Seqs(clean_names, 2, minlen=2, name="clean2"))
+        fams.append(Product(clean_names, [c[0] for c in W.CTX], name="clean-ctx"))
+        if tier != "quick":
             fams.append(Product([c[0] for c in W.CTX], W.SIGMA, name="ctx-sigma"))
             fams.append(Seqs(core, 3, minlen=3, name="core3"))
             fams.append(Product(clean_names, clean_names[::3], clean_names[::5], name="clean3"))
@@ -210,7 +208,9 @@ class CleanExplore(InputProp):
             else:
                 for sig, msg in validate(tree, final=True):
                     if sig.startswith("contract:"):
-                        v5.append({"sig": sig, "msg": "%s after the full cleaning sequence on %r" % (msg, text[:200])})
+                        fam, c = case
+                        origin = fam + (":" + "/".join(map(str, c)) if fam.startswith("clean") else "")
+                        v5.append({"sig": sig + "|" + origin, "msg": "%s after the full cleaning sequence on %r" % (msg, text[:200])})
             # the path the writers use: clean_all with its catch-all must not have swallowed an error
             if not v6:
                 try:
